@@ -19,12 +19,13 @@ DIR=$(head -1 $DEMO | sed -n 's,^// place in: *,,p' | tr -d ' \r')
 DEMOFILE=$DIR/zz_seeded_demo_test.go
 mkdir -p $DIR; cp $DEMO $DEMOFILE
 DEMOENV=""; grep -q "testing/synctest" $DEMO && DEMOENV="GOEXPERIMENT=synctest"
+RACE=""; grep -q -- "-race" $META && RACE="-race"
 TESTS=$(grep -o '^func Test[A-Za-z0-9_]*' $DEMO | sed 's/func //' | paste -sd'|')
 echo "== demo tests: $TESTS in $DIR"
-env $DEMOENV go test -vet=off -count=1 -run "^($TESTS)\$" ./$DIR/ > /tmp/evalmut.$$.base 2>&1; BASE=$?
+env $DEMOENV go test $RACE -vet=off -count=1 -run "^($TESTS)\$" ./$DIR/ > /tmp/evalmut.$$.base 2>&1; BASE=$?
 git apply $PATCH || { echo "PATCH DOES NOT APPLY"; exit 3; }
 go build ./internal/controller/ ./internal/fans/ ./internal/curves/ ./internal/sensors/ ./internal/util/ ./internal/configuration/ ./internal/persistence/ ./internal/control_loop/ 2>&1 | tail -3
-env $DEMOENV go test -vet=off -count=1 -run "^($TESTS)\$" ./$DIR/ > /tmp/evalmut.$$.mut 2>&1; MUT=$?
+env $DEMOENV go test $RACE -vet=off -count=1 -run "^($TESTS)\$" ./$DIR/ > /tmp/evalmut.$$.mut 2>&1; MUT=$?
 rm -f $DEMOFILE
 go test -vet=off -count=1 ./internal/... 2>&1 | grep -v "^ok\|no test files\|build failed\|gosensors\|sensors.h\|^ *[0-9]* |\|compilation terminated\|#include" > /tmp/evalmut.$$.suite; SUITE=$(grep -c "^--- FAIL\|^FAIL.*[0-9]s$\|^panic" /tmp/evalmut.$$.suite)
 if [ $SUITE -ne 0 ]; then
